@@ -1,16 +1,16 @@
-\* replayed exhaustively: the header-form space of P2Bin_MC_forms.cfg (families x <= 3 records, each short CODE / long CODE /
-\* long DATA, in every order x automatic range / -r 0-5 x -segment code / data)
+\* replayed exhaustively: header forms x families (FormCases; families as in P2Bin_MC_forms.cfg), <= 3 records each short
+\* CODE / long CODE / long DATA at 0 or 3, in every order x automatic range / -r 0-5
 CONSTANTS
   Dev = {}
   MaxRecs = 3
   Starts = {0, 3}
   UnitLens = {2}
-  GranSet = {1, 2, 4}
+  GranSet = {}
   EntryAddrs = {}
   Offsets = {}
   FillSet = {255}
   SumOpts = {FALSE}
-  SegOpts = {1, 2}
+  SegOpts = {1}
   CpuSegs <- CS_Forms
   Ranges <- R_Forms
   LaneSet <- L_All1
